@@ -674,9 +674,11 @@ func (p *proxy) fireAndForgetProduce(ctx context.Context, header *protocol.Reque
 
 	for addr, subReq := range groups {
 		var payload []byte
-		if len(groups) == 1 {
+		if len(groups) == 1 && originalPayload != nil {
 			payload = originalPayload
 		} else {
+			// originalPayload is nil when the request was rewritten (LFS) and
+			// must be re-encoded even for a single backend.
 			payload = encodeProduceRequest(header, subReq)
 		}
 
